@@ -34,10 +34,10 @@ let handle kind a =
   | "feat" ->
       let refseq = bytes_of_hex a.(0) and start = n_of_dec a.(1) and ops = parse_cigar a.(2)
       and seq = bytes_of_hex a.(3) and quals = bytes_of_hex a.(4) in
-      (match roundtrip default_sm refseq seq quals ops start with
+      (match roundtrip_stop default_sm refseq seq quals ops start with
        | RInvalidInput -> Some "Err:InvalidInput"
        | RWritePanic -> Some "Panic"
-       | RReadFail -> Some "ReadFail"
+       | RReadFail -> Some "Err:InvalidData"
        | ROk (cig, s) -> Some (fmt_cigar cig ^ " " ^ hex_of_bytes s))
   | "cont" | "big" when (if kind = "big" then a.(5) else a.(1)) = "-" -> Some "-"
   | "cont" | "big" ->
@@ -119,6 +119,68 @@ let handle kind a =
                Printf.sprintf "S:%s,%s,%s,%s,%s,%s,%s" (dec_of_z r.rw_ref) (dec_of_z r.rw_start) (dec_of_z r.rw_span)
                  (dec_of_n r.rw_nrec) (dec_of_n r.rw_counter) (dec_of_z r.rw_embedded)
                  (if r.rw_md5 then "m" else "z")) rows)))
+  | "file" | "mdist" ->
+      (* file: a.(0) = records per slice, a.(1) = refs, a.(2) = records;
+         mdist: a.(0) = refs, a.(1) = records, a.(2) = ','-joined cf:nf *)
+      let (refs_s, recs_s) = if kind = "file" then (a.(1), a.(2)) else (a.(0), a.(1)) in
+      let refs = if refs_s = "_" then [] else
+        List.map (fun r -> match split_on ':' r with
+          | [_; h] -> bytes_of_hex h | _ -> failwith "ref") (split_on ',' refs_s) in
+      let opt_n s = if s = "-1" then None else Some (n_of_dec s) in
+      let opt_pos s = if s = "0" then None else Some (n_of_dec s) in
+      (* `^@` in a name of the case text stands for a NUL byte *)
+      let unescape s =
+        let b = Buffer.create (String.length s) in
+        let i = ref 0 in
+        while !i < String.length s do
+          if !i + 1 < String.length s && s.[!i] = '^' && s.[!i + 1] = '@'
+          then (Buffer.add_char b '\000'; i := !i + 2)
+          else (Buffer.add_char b s.[!i]; incr i)
+        done; Buffer.contents b in
+      let name s = if s = "*" then None
+        else (let s = unescape s in
+              Some (List.init (String.length s) (fun i -> n_of_int (Char.code s.[i])))) in
+      let recs = List.map (fun r ->
+        match split_on '|' r with
+        | [nm; fl; rid; pos; cg; mrid; mpos; tl; sq] ->
+            let seq = bytes_of_hex sq in
+            samrec_of (n_of_dec fl) (name nm) (opt_n rid) (opt_pos pos) (parse_cigar cg) seq
+              (List.map (fun _ -> n_of_int 30) seq) (opt_n mrid) (opt_pos mpos) (z_of_dec tl)
+        | _ -> failwith "file record") (split_on ';' recs_s) in
+      let on = function None -> "-1" | Some x -> dec_of_n x in
+      let op = function None -> "0" | Some x -> dec_of_n x in
+      if kind = "file" then begin
+        let rps = nat_of_int (int_of_string a.(0)) in
+        match file_rt_names refs rps recs with
+        | MWriteErr -> Some "Err:InvalidInput"
+        | MReadErr -> Some "ReadErr:InvalidData"
+        | MOk out ->
+            let layout = match file_layout refs rps recs with
+              | None -> "Err"
+              | Some l -> String.concat "," (List.map (fun n -> string_of_int (int_of_nat n)) l) in
+            let cols = String.concat ";" (List.map (fun r ->
+              let (((f, mr), mp), t) = mate_view r in
+              let un = (int_of_n f) land 4 <> 0 in
+              Printf.sprintf "%s,%s,%s,%s,%s,%s,%s,%s,%s" (dec_of_n f) (on r.m_ref) (op r.m_start)
+                (if un then "_" else fmt_cigar (rec_cigar r))
+                (if un then "-" else match rec_bases refs r with Some s -> hex_of_bytes s | None -> "ReadFail")
+                (on mr) (op mp) (dec_of_z t)
+                (match r.m_name with Some s -> hex_of_bytes s | None -> "*")) out) in
+            let blocks = match file_name_blocks refs rps recs with
+              | None -> "Err"
+              | Some l -> String.concat "/" (List.map hex_of_bytes l) in
+            Some (layout ^ " " ^ cols ^ " N:" ^ blocks)
+      end else begin
+        let links = List.map (fun l -> match split_on ':' l with
+          | [cf; nf] -> (n_of_dec cf, n_of_dec nf) | _ -> failwith "link") (split_on ',' a.(2)) in
+        match mdist_rt refs recs links with
+        | MWriteErr -> Some "Harness"
+        | MReadErr -> Some "ReadErr:InvalidData"
+        | MOk out ->
+            Some (String.concat ";" (List.map (fun r ->
+              let (((f, mr), mp), t) = mate_view r in
+              Printf.sprintf "%s,%s,%s,%s" (dec_of_n f) (on mr) (op mp) (dec_of_z t)) out))
+      end
   | _ -> None
 
 let () = run_driver handle
